@@ -374,7 +374,9 @@ def find_shortest_path(
     while fifo:
         node, path = fifo.popleft()
         visited.add(node)
-        for adjascent_node in graph[node] - visited:
+        # graph may be a defaultdict: do not create entries for nodes without
+        # outgoing edges (find_connected_nodes goes by the keys)
+        for adjascent_node in set(graph.get(node, ())) - visited:
             if adjascent_node == end:
                 return path + [adjascent_node]
             else:
